@@ -34,7 +34,7 @@ package simplefixgo
 //@ ghost outAt smap
 //@ chanlog DefaultHandler.out outN outAt
 //@ field[C20] HandlerPool.handlers: guarded_by(mu)
-//@ unscoped[C20] (*HandlerPool).Remove, (*HandlerPool).free
+//@ unscoped[C20] (*HandlerPool).Remove, (*HandlerPool).free, (*DefaultHandler).RemoveIncomingHandler, (*DefaultHandler).RemoveOutgoingHandler
 
 //@ func (p *HandlerPool) add(msgType string, handle interface{}) (id int64)
 //@   requires p != nil && p.handlers != nil
@@ -144,3 +144,21 @@ package simplefixgo
 //@   ensures[C19] @allfirst imp(err == nil && 0 <= j && j < c1 - old(callN), sel(callAt, old(callN) + j) == nth(all, j))
 //@   ensures[C19,C18] @thenown imp(err == nil && 0 <= j && j < callN - c1, sel(callAt, c1 + j) == nth(own, j))
 //@   ensures[C19] @nothing imp(err != nil, callN == old(callN))
+
+// ---- fields shared between goroutines (C20) ----------------------------------------------------
+//@ field[C20] Conn.reader: immutable_after(NewConn)
+//@ field[C20] Conn.writer: immutable_after(NewConn)
+//@ field[C20] Conn.conn: immutable_after(NewConn)
+//@ field[C20] Conn.ctx: immutable_after(NewConn)
+//@ field[C20] Conn.cancel: immutable_after(NewConn)
+//@ field[C20] Conn.writeDeadline: immutable_after(NewConn)
+//@ field[C20] DefaultHandler.out: immutable_after(NewAcceptorHandler, NewInitiatorHandler)
+//@ field[C20] DefaultHandler.incoming: immutable_after(NewAcceptorHandler, NewInitiatorHandler)
+//@ field[C20] DefaultHandler.errors: immutable_after(NewAcceptorHandler, NewInitiatorHandler)
+//@ field[C20] DefaultHandler.ctx: immutable_after(NewAcceptorHandler, NewInitiatorHandler)
+//@ field[C20] DefaultHandler.cancel: immutable_after(NewAcceptorHandler, NewInitiatorHandler)
+//@ field[C20] DefaultHandler.msgTypeTag: immutable_after(NewAcceptorHandler, NewInitiatorHandler)
+//@ field[C20] DefaultHandler.incomingHandlers: immutable_after(NewAcceptorHandler, NewInitiatorHandler)
+//@ field[C20] DefaultHandler.outgoingHandlers: immutable_after(NewAcceptorHandler, NewInitiatorHandler)
+//@ field[C20] DefaultHandler.eventHandlers: immutable_after(NewAcceptorHandler, NewInitiatorHandler)
+//@ field[C20] HandlerPool.counter: immutable_after(NewHandlerPool)
